@@ -454,9 +454,14 @@ Qed.
 
 Lemma trunc_ok_19_digits w : 10 ^ 18 <= w < 2 ^ 64 -> trunc_ok F64 w /\ trunc_ok F32 w.
 Proof.
-  intros Hw. split; apply trunc_ok_of_size; try (vm_compute; congruence).
-  - change (MANTISSA_SIZE F64) with 52. assert (2 ^ (52 + 5) <= 10 ^ 18) by (vm_compute; congruence). lia.
-  - change (MANTISSA_SIZE F32) with 23. assert (2 ^ (23 + 5) <= 10 ^ 18) by (vm_compute; congruence). lia.
+  intros Hw.
+  assert (H57 : 2 ^ (52 + 5) <= 10 ^ 18) by (apply Z.leb_le; vm_compute; reflexivity).
+  assert (H28 : 2 ^ (23 + 5) <= 10 ^ 18) by (apply Z.leb_le; vm_compute; reflexivity).
+  split; apply trunc_ok_of_size.
+  - change (MANTISSA_SIZE F64) with 52. lia.
+  - change (MANTISSA_SIZE F64) with 52. lia.
+  - change (MANTISSA_SIZE F32) with 23. lia.
+  - change (MANTISSA_SIZE F32) with 23. lia.
 Qed.
 
 (** ** examples *)
@@ -469,7 +474,7 @@ Example declined_estimate_needs_long_w :
    (2 * (2 ^ 40 + 1) + 1) # 2 < inject_Z (2 ^ 40 + 1 + 1) * pow10Q 0)%Q /\
   RN F64 ((2 * (2 ^ 40 + 1) + 1) # 2) = rd_bits F64 (mkExt (mant fp) (exp fp - INVALID_FP F64)) + 2048.
 Proof.
-  cbv zeta. split; [vm_compute; reflexivity|]. split; [split; vm_compute; congruence|vm_compute; reflexivity].
+  cbv zeta. split; [vm_compute; reflexivity|]. split; [split; vm_compute; [discriminate|reflexivity]|vm_compute; reflexivity].
 Qed.
 
 (** exponent -64 occurs (a truncated 13-digit significand next to half the smallest f64 subnormal) *)
@@ -478,10 +483,26 @@ Example declined_m64_occurs :
   = Ok (mkExt 18446744073707813814 (-64 + INVALID_FP F64)).
 Proof. vm_compute. reflexivity. Qed.
 
-(** the theorem applies: an exact 9-digit significand that f64 Bellerophon declines *)
-Example declined_estimate_ex :
-  exists fp, bellerophon BTABLES F64 checked_build (mkNumber (-324) 5 false) = Ok fp.
-Proof. eexists. vm_compute. reflexivity. Qed.
+(** the theorem applies: the F1 witness (19 digits, truncated) is declined with estimate
+    [(13768166668992357363, -5)]; whatever the dropped digits, the result is its truncation or the next pattern *)
+Example declined_estimate_F1 : forall v : Q,
+  (inject_Z 1062871587088380183 * pow10Q (-324) <= v /\
+   v < inject_Z (1062871587088380183 + 1) * pow10Q (-324))%Q ->
+  let fp' := mkExt 13768166668992357363 (-5) in
+  rd_bits F64 fp' <= RN F64 v <= rd_bits F64 fp' + 1.
+Proof.
+  intros v Hv.
+  assert (E : bellerophon BTABLES F64 checked_build (mkNumber (-324) 1062871587088380183 true)
+              = Ok (mkExt 13768166668992357363 (-5 + INVALID_FP F64))) by (vm_compute; reflexivity).
+  assert (R : 10 ^ 18 <= 1062871587088380183 < 2 ^ 64) by (split; [apply Z.leb_le|apply Z.ltb_lt]; vm_compute; reflexivity).
+  assert (R31 : - 2 ^ 31 <= -324 < 2 ^ 31) by (split; [apply Z.leb_le|apply Z.ltb_lt]; vm_compute; reflexivity).
+  pose proof (bellerophon_declined_estimate F64 checked_build 1062871587088380183 (-324) true bell_ok_F64
+                ltac:(lia) R31 (fun _ => proj1 (trunc_ok_19_digits _ R)) _ E ltac:(vm_compute; reflexivity))
+    as (_ & _ & _ & H).
+  cbv zeta in H. cbn [mant exp] in H.
+  replace (-5 + INVALID_FP F64 - INVALID_FP F64) with (-5) in H by lia.
+  exact (H v Hv).
+Qed.
 
 Print Assumptions bellerophon_declined_inv.
 Print Assumptions bellerophon_declined_nonzero.
